@@ -619,3 +619,86 @@ def check_side_pairing(model: RepoModel, rep, RID: str, rels: Iterable[str], sid
                     else:
                         rep.holds(RID, key, rel, c.lineno, f"`{pa[0]}` <- {sorted(ra)}-side data, `{pb[0]}` <- {sorted(rb)}-side data")
     return n
+
+
+# ------------------------------------------------------------------------------------------------------------------ L8
+GROW_CALLS = ("add", "update", "append", "setdefault", "add_to_dict_with_default_set", "add_to_dict_with_default_list")
+
+
+def check_mark_before_recursion(model: RepoModel, rep, RID: str, rels: Iterable[str]) -> int:
+    """L8: a recursive function that protects itself against cycles with a memo (`if k in M: ... return/continue`, M handed down or kept
+    on the object) must enter the current key into M BEFORE it calls itself for what the key refers to.  Marking after the descent
+    is as good as not marking: on a cyclic object graph the recursion comes back to the same key while it is still unmarked and never
+    ends (RecursionError), on a diamond-shaped graph every join is expanded once per path (exponential)."""
+    n = 0
+    for rel in rels:
+        mod = model.module(rel)
+        for f in mod.all_funcs():
+            short = f.name.split(".")[-1]
+            is_method = f.cls is not None and f.params[:1] == ["self"] and "." not in f.name
+            rec_calls = [c for c in walk_no_nested(f.node) if isinstance(c, ast.Call) and (
+                (isinstance(c.func, ast.Name) and c.func.id == short and not is_method) or
+                (isinstance(c.func, ast.Attribute) and c.func.attr == short and isinstance(c.func.value, ast.Name) and c.func.value.id == "self" and is_method))]
+            if not rec_calls:
+                continue
+            # memo guards: `k in M` / `k not in M` whose M is a parameter, a self attribute or a closure variable
+            own_locals = {x.id for x in walk_no_nested(f.node) if isinstance(x, ast.Name) and isinstance(x.ctx, ast.Store)}
+            memos: Dict[str, List[ast.Compare]] = {}
+            for cmp_ in walk_no_nested(f.node):
+                if isinstance(cmp_, ast.Compare) and len(cmp_.ops) == 1 and isinstance(cmp_.ops[0], (ast.In, ast.NotIn)):
+                    M = cmp_.comparators[0]
+                    if isinstance(M, ast.Name) and (M.id in f.params or M.id not in own_locals):
+                        memos.setdefault(M.id, []).append(cmp_)
+                    elif isinstance(M, ast.Attribute) and isinstance(M.value, ast.Name) and M.value.id == "self":
+                        memos.setdefault(norm(M), []).append(cmp_)
+            if not memos:
+                continue
+            cfg = cfg_of(f.node)
+            for M, guards in sorted(memos.items()):
+                def grows(nd) -> bool:
+                    st = cfg.stmt.get(nd)
+                    for c in cfg.calls_at(nd):
+                        if isinstance(c.func, ast.Attribute) and c.func.attr in GROW_CALLS:
+                            if norm(c.func.value) == M or any(norm(a) == M for a in c.args[:1]):
+                                return True
+                        if isinstance(c.func, ast.Name) and c.func.id in GROW_CALLS and any(norm(a) == M for a in c.args[:1]):
+                            return True
+                    if cfg.kind[nd] == "stmt" and isinstance(st, ast.Assign):
+                        return any(isinstance(t, ast.Subscript) and norm(t.value) == M for t in st.targets)
+                    return False
+                marks = {nd for nd in cfg.g.nodes if grows(nd)}
+                if not marks:
+                    continue                          # a membership test on something this function never grows: not its memo
+                # the memo has to be the one handed down (or shared through self / the closure)
+                handed = [c for c in rec_calls if M.startswith("self.") or M not in f.params or any(norm(a) == M for a in list(c.args) + [k.value for k in c.keywords])]
+                if not handed:
+                    continue
+                # guard must lead to an exit (return / continue) -- otherwise it is an ordinary lookup
+                exits = any(isinstance(x, (ast.Return, ast.Continue)) for g in guards for i in walk_no_nested(f.node) if isinstance(i, ast.If) and any(y is g for y in ast.walk(i.test))
+                            for x in ast.walk(i))
+                if not exits:
+                    continue
+                call_nodes = {}
+                for nd in cfg.g.nodes:
+                    for c in cfg.calls_at(nd):
+                        if any(c is r for r in handed):
+                            call_nodes[id(c)] = nd
+                for c in handed:
+                    nd = call_nodes.get(id(c))
+                    if nd is None:
+                        continue
+                    n += 1
+                    key = f"{rel}::{f.qualname}::`{norm(c)[:70]}`::the memo `{M}` is marked before the descent"
+                    if nd in marks:
+                        rep.holds(RID, key, rel, c.lineno, "the call itself enters the key")
+                        continue
+                    path = cfg.path_avoiding(cfg.ENTRY, nd, marks)
+                    if path is None:
+                        rep.holds(RID, key, rel, c.lineno, f"every path to the recursive call passes a store into `{M}`")
+                    else:
+                        rep.violation(RID, key, rel, c.lineno,
+                                      f"{f.qualname} tests `{norm(guards[0])}` to stop at what it has already seen, but reaches the recursive call at line "
+                                      f"{c.lineno} on a path that has not yet entered anything into `{M}` "
+                                      f"({' -> '.join(cfg.describe_path(path)[-6:])}): on a cyclic object graph (a.next = b; b.next = a) the descent returns to "
+                                      f"the same key while it is still unmarked and recurses without end")
+    return n
